@@ -154,6 +154,25 @@ func (s *listSys) Ops() []engine.Op {
 			ops = append(ops, listOp{"mdelete", k})
 		}
 	}
+	// deleting a key that does not exist but is the "directory" of live keys must change nothing
+	if !s.versioned {
+		seen := map[string]bool{}
+		for l := range s.live {
+			for i := 0; i < len(l); i++ {
+				if l[i] == '/' && i > 0 && !seen[l[:i]] && !s.live[l[:i]] && !strings.HasSuffix(l[:i], "/") {
+					seen[l[:i]] = true
+				}
+			}
+		}
+		var ds []string
+		for d := range seen {
+			ds = append(ds, d)
+		}
+		sort.Strings(ds)
+		for _, d := range ds {
+			ops = append(ops, listOp{"delete", d}, listOp{"mdelete", d})
+		}
+	}
 	return ops
 }
 
